@@ -20,8 +20,10 @@ Differential oracle over (trait configuration) x (value lattice):
 See DESIGN.md section 4 / C03.  The value lattice lives in `_c03_lattice.py`.
 """
 import collections.abc
+import copy
 import numbers
 import operator
+import pickle
 import types
 
 from traits.api import (
@@ -81,7 +83,10 @@ META = {
                   "py_nonTE_c_TE_allowed": 250, "converted_results": 8000,
                   "nested_slow_before_fast_specs": 14, "nested_slow_wins_over_later_fast": 120,
                   "manager-swapped_discriminating_accepts": 15, "manager-swapped_discriminating_rejects": 12,
-                  "map-mutated_discriminating_accepts": 75, "map-mutated_discriminating_rejects": 50},
+                  "map-mutated_discriminating_accepts": 75, "map-mutated_discriminating_rejects": 50,
+                  "copied_specs": 200, "copied_pairs": 40000, "copied_specs/pickle": 100,
+                  "copied_specs/copy": 20, "copied_specs/deepcopy": 20, "copied_specs/clone": 20,
+                  "copied_specs/add_trait": 40},
         "thorough": {"evaluations": 1000000, "fast_descriptor_specs": 2500, "both_accept": 350000,
                      "both_reject": 650000, "compound_law_evaluations": 850000,
                      "compound_accept_via_nonfirst": 180000, "compound_accept_via_slow": 8000,
@@ -90,7 +95,10 @@ META = {
                      "py_nonTE_c_TE_allowed": 6000, "converted_results": 250000,
                      "nested_slow_before_fast_specs": 250, "nested_slow_wins_over_later_fast": 2000,
                      "manager-swapped_discriminating_accepts": 15, "manager-swapped_discriminating_rejects": 12,
-                     "map-mutated_discriminating_accepts": 75, "map-mutated_discriminating_rejects": 50},
+                     "map-mutated_discriminating_accepts": 75, "map-mutated_discriminating_rejects": 50,
+                     "copied_specs": 600, "copied_pairs": 200000, "copied_specs/pickle": 300,
+                     "copied_specs/copy": 50, "copied_specs/deepcopy": 50, "copied_specs/clone": 50,
+                     "copied_specs/add_trait": 100},
     },
     "assumptions": [
         "the handler's Python `validate` method is the specification of the fast path (the "
@@ -106,7 +114,12 @@ META = {
                       "AdaptationManager is replaced via set_/reset_global_adaptation_manager or gets a "
                       "late registration, offers differing between the managers) and map-live:* (Map / "
                       "TraitMap defined over a dict that the harness then mutates: keys added, removed); "
-                      "violations there carry the sub-check suffix @manager-swapped / @map-mutated",
+                      "violations there carry the sub-check suffix @manager-swapped / @map-mutated; "
+                      "copy:* (every catalogue configuration again on CTraits that went through pickle "
+                      "protocols 0-5 / copy.copy / copy.deepcopy / CTrait.clone / add_trait of a pickled or "
+                      "deep-copied trait; quick: 4 rotating modes and a class-representative value subset "
+                      "per configuration, thorough: all 11 modes x whole lattice), suffix @copied:<how> "
+                      "unless the original trait shows the same disagreement",
     "exhaustive_parts": "every catalogue configuration and every fixed compound is run against "
                         "every lattice value (no sampling inside a configuration)",
 }
@@ -418,10 +431,12 @@ def tuple_members(handler):
 
 
 class Built(object):
-    def __init__(self, spec, expect_fast=True):
+    def __init__(self, spec, expect_fast=True, ct=None):
         self.spec = spec
-        t = mk(spec)
-        self.ct = t.as_ctrait() if hasattr(type(t), "as_ctrait") else t
+        if ct is None:
+            t = mk(spec)
+            ct = t.as_ctrait() if hasattr(type(t), "as_ctrait") else t
+        self.ct = ct
         self.handler = self.ct.handler
         self.kind = kind_of(self.handler)
         self.fast = is_fast(self.ct)
@@ -474,6 +489,26 @@ def make_key(verdict, kind, cls, c, p):
 _MISSING = object()
 
 
+class _NullCtx(object):
+    """Swallows observations while a baseline pair is re-evaluated."""
+    samples = ()
+
+    def ev(self, n=1):
+        pass
+
+    def count(self, name, n=1):
+        pass
+
+    def sig(self, *parts):
+        pass
+
+    def sample(self, obj, cap=4):
+        pass
+
+
+_NULL = _NullCtx()
+
+
 # --------------------------------------------------------------------------
 class Checker(object):
     def __init__(self, ctx):
@@ -491,11 +526,37 @@ class Checker(object):
         self.accepting_classes = {}
         self.keytag = ""       # history stratum marker, becomes part of the sub-check
         self.hot = None        # value ids whose status the history changed
+        self.twin = None       # copy stratum: the original the copy was made from
+        self.twin_cache = {}
+        self.dry = None        # set collecting keys while a baseline pair is evaluated
+
+    def baseline_keys(self, vid, cls, v):
+        """Keys the same pair yields on the original trait (copy stratum): a
+        disagreement the original shows too is not caused by the copy."""
+        keys = self.twin_cache.get(vid)
+        if keys is None:
+            saved = (self.ctx, self.keytag, self.twin, self.hot)
+            self.ctx, self.keytag, self.twin, self.hot = _NULL, "", None, None
+            self.dry = set()
+            try:
+                self.pair(saved[2], vid, cls, v)
+            finally:
+                keys, self.dry = self.dry, None
+                self.ctx, self.keytag, self.twin, self.hot = saved
+            self.twin_cache[vid] = keys
+        return keys
 
     def viol(self, key, b, vid, cls, v, detail, extra=None):
-        if self.keytag:
+        if self.dry is not None:
+            self.dry.add(key)
+            return
+        tag = self.keytag
+        if tag and self.twin is not None and key in self.baseline_keys(vid, cls, v):
+            tag = ""
+            self.ctx.count("copied_echo_of_stateless_disagreement")
+        if tag:
             sub, rest = key.split("/", 1)
-            key = "%s@%s/%s" % (sub, self.keytag, rest)
+            key = "%s@%s/%s" % (sub, tag, rest)
         w = {"spec": b.spec, "history": self.keytag or None, "value_id": vid, "value_class": cls, "value": short(v, 80),
              "descriptor": short(descriptor_of(b.ct), 200)}
         if extra:
@@ -767,19 +828,19 @@ class Checker(object):
                 return
 
     # ---- one configuration over the lattice ---------------------------------
-    def run_spec(self, b, rng, nderived):
+    def run_spec(self, b, rng, nderived, values=None):
         ctx = self.ctx
         if b.fast:
             ctx.count("fast_descriptor_specs")
             ctx.count("fast_descriptor_specs/" + ("compound" if b.alts is not None else "atomic"))
         elif b.expect_fast:
-            ctx.violation("descriptor/not-installed/%s" % b.kind,
+            ctx.violation("descriptor%s/not-installed/%s" % ("@" + self.keytag if self.keytag else "", b.kind),
                           "spec %r: get_validate() is %s, not a fast descriptor tuple"
                           % (b.spec, short(descriptor_of(b.ct), 80)), {"spec": b.spec})
         else:
             ctx.count("slow_specs")
         n = 0
-        for vid, cls, v in self.values:
+        for vid, cls, v in (self.values if values is None else values):
             if b.skip_bigidx and vid in self.bigidx:
                 ctx.count("skipped_resource_pairs")
                 continue
@@ -1265,6 +1326,66 @@ def map_live_case(ctx, ck, scen, nder):
         ctx.end()
 
 
+# --------------------------------------------------------------------------
+# copy stratum: the same sweep on CTraits that went through pickle / copy /
+# deepcopy / clone, and on traits re-installed with add_trait from such a copy
+COPY_PICKLE = [("pickle", p) for p in range(pickle.HIGHEST_PROTOCOL + 1)]
+COPY_OTHER = [("copy", None), ("deepcopy", None), ("clone", None), ("add_trait", "pickle"),
+              ("add_trait", "deepcopy")]
+
+
+def make_copy(ct, mode):
+    kind, arg = mode
+    if kind == "pickle":
+        return pickle.loads(pickle.dumps(ct, arg)), None
+    if kind == "copy":
+        return copy.copy(ct), None
+    if kind == "deepcopy":
+        return copy.deepcopy(ct), None
+    if kind == "clone":
+        c = CTrait(0)
+        c.clone(ct)
+        if ct.__dict__ is not None:
+            c.__dict__ = ct.__dict__.copy()
+        return c, None
+    src = pickle.loads(pickle.dumps(ct, 2)) if arg == "pickle" else copy.deepcopy(ct)
+    owner = LAT.Holder()
+    owner.add_trait("t", src)
+    return owner.trait("t"), owner
+
+
+def copied_case(ctx, ck, i, spec, modes, values, nder):
+    if not ctx.begin("copy:%d" % i, {"spec": spec, "modes": modes}):
+        return
+    try:
+        try:
+            b0 = Built(spec, None)
+        except Exception:
+            ctx.count("unbuildable_specs")
+            return
+        for mode in modes:
+            try:
+                ct1, owner = make_copy(b0.ct, mode)
+                b1 = Built(spec, b0.fast, ct=ct1)
+            except Exception as e:  # noqa: BLE001 - e.g. Module is not picklable (C14's F18)
+                ctx.count("copy_failed")
+                ctx.count("copy_failed/%s/%s" % (mode[0], type(e).__name__))
+                continue
+            b1.owner = owner
+            ck.keytag, ck.twin, ck.twin_cache = "copied:" + mode[0], b0, {}
+            try:
+                ctx.count("specs")
+                ctx.count("copied_specs")
+                ctx.count("copied_specs/" + mode[0])
+                n = ck.run_spec(b1, ctx.rng("copy", i, mode[0], mode[1]), nder, values)
+                ctx.count("pairs", n)
+                ctx.count("copied_pairs", n)
+            finally:
+                ck.keytag, ck.twin, ck.twin_cache = "", None, {}
+    finally:
+        ctx.end()
+
+
 def setup_adaptation():
     mgr = AdaptationManager()
     mgr.register_factory(LAT.XAdapter, LAT.Src, LAT.X)
@@ -1330,6 +1451,24 @@ def run(ctx):
     for i, scen in enumerate(MAP_SCENARIOS):
         if ctx.mine(i + 13):
             map_live_case(ctx, ck, scen, 16)
+    # ---- copy stratum (own keys: sub-check@copied:<how>/...) ---------------------------
+    cat = [sp for sp, _ in atomic_specs(False)] + fixed_compounds() + nested_mixed_compounds()
+    reps, seen = set(), set()
+    for vid, cls, v in ck.values:
+        if cls not in seen:
+            seen.add(cls)
+            reps.add(vid)
+    for i, spec in enumerate(cat):
+        if not ctx.mine(i + 2):
+            continue
+        if full:
+            modes, values = COPY_PICKLE + COPY_OTHER, None
+        else:
+            k = i + ctx.seed
+            modes = [COPY_PICKLE[k % len(COPY_PICKLE)], COPY_OTHER[i % 5], COPY_OTHER[(i + 2) % 5],
+                     COPY_PICKLE[(k + 3) % len(COPY_PICKLE)]]
+            values = [e for j, e in enumerate(ck.values) if e[0] in reps or j % 3 == i % 3]
+        copied_case(ctx, ck, i, spec, modes, values, ctx.scale(12, 40))
     # ---- seeded random compounds -------------------------------------------------
     pool_w = member_pool()
     pool = [p for p, _ in pool_w]
